@@ -18,7 +18,7 @@ func runC12(c *Ctx) {
 	L := c.L
 	L.Rule("alphabet-wildcard", "an alphabet-specific constant (ALL_AMINO/ALL_NUCLE, resolved through go/types) is used only where the controlling alphabet comparisons select its own alphabet")
 	L.Rule("lowercase-wildcard", "the lower-case wildcard is unicode.ToLower of the value merged after the alphabet selection (both constants reach it), not of a single constant")
-	L.Rule("ignore-test", "a comparison of a residue with the wildcard (either case) executes only under ignoreNs, a comparison with the GAP constant only under ignoreGaps")
+	L.Rule("ignore-test", "truth table of the ignore logic over the atoms {ignoreGaps, ignoreNs, residue == GAP, residue == wildcard, residue == lower-case wildcard}: the block that counts a residue is reached exactly when not((ignoreGaps and gap) or (ignoreNs and wildcard in either case)), for all 16 combinations, whatever statement form expresses it")
 	L.Rule("cutoff-comparison", "the threshold test compares float64(count) with cutoff*float64(total) non-strictly with the count on the greater-or-equal side; the zero-cutoff arm tests count > 0 on the same counter")
 	L.Rule("cutoff-domain", "the only rewrites of the cutoff argument happen under cutoff < c (c <= 0) or cutoff > c (c >= 1): no cutoff inside [0,1] is altered")
 	L.Rule("rebuild-partition", "in the row rebuild loop every column index executes exactly one of {append the residue to the new row, increment the removed counter}")
@@ -45,7 +45,7 @@ func runC12(c *Ctx) {
 		c.checkIgnoreTests(r, true)
 	}
 	c.checkIgnoreTests(maxcs, true)
-	L.Floor("ignore-test", 9, "gap + two wildcard comparisons in each of 3 functions")
+	L.Floor("ignore-test", 3, "one truth table in each of 3 functions")
 	for _, r := range []*fnRef{sites, major, seqs} {
 		c.checkCutoff(r)
 	}
@@ -189,6 +189,16 @@ func isWildcardValue(v ssa.Value) bool {
 	return false
 }
 
+// checkIgnoreTests reads the ignore logic as a truth table. Atoms: the two option flags used as
+// branch conditions, the comparisons of a residue with the GAP constant, with the wildcard of the
+// alphabet (a merge of 'N' and 'X') and with its lower-case form. Some block of the residue loop
+// — the one that counts the residue in the total — must be reached exactly under
+//
+//	not( (ignoreGaps and residue == GAP) or (ignoreNs and (residue == wildcard or residue == lower(wildcard))) )
+//
+// for all 16 combinations (a residue equals at most one of the three). How the condition is written
+// (one expression, named booleans, guard clauses, a helper or a small struct seen through the
+// inlined view) does not matter.
 func (c *Ctx) checkIgnoreTests(r *fnRef, _ bool) {
 	if !r.ok() {
 		return
@@ -207,43 +217,166 @@ func (c *Ctx) checkIgnoreTests(r *fnRef, _ bool) {
 			gapv = k
 		}
 	}
-	nW, nG := 0, 0
-	allInstrs(fn, func(in ssa.Instruction) {
-		bo, ok := in.(*ssa.BinOp)
-		if !ok || bo.Op != token.EQL {
-			return
+	isUpperWild := func(v ssa.Value) bool {
+		hasN, hasX, _ := wildcardConsts(v)
+		if !(hasN && hasX) {
+			return false
 		}
-		for _, pair := range [][2]ssa.Value{{bo.X, bo.Y}, {bo.Y, bo.X}} {
-			other, w := pair[0], pair[1]
-			if isWildcardValue(w) && !isWildcardValue(other) {
-				nW++
-				if guardedByBool(bo.Block(), ign, true) {
-					L.OK("ignore-test", r.label, "residue == wildcard", c.P.Pos(bo.Pos()), "executes only on the true branch of ignoreNs")
-				} else {
-					L.Bad("ignore-test", r.label, "residue == wildcard", c.P.Pos(bo.Pos()), "the wildcard test is not controlled by ignoreNs: N/X are dropped from the total (or counted) regardless of the option")
+		for u := range throughPhis(v, false) {
+			if _, isCall := u.(*ssa.Call); isCall {
+				return false
+			}
+		}
+		return true
+	}
+	isLowerWild := func(v ssa.Value) bool {
+		for u := range throughPhis(v, false) {
+			if args, ok := isCallTo(u, "unicode", "ToLower"); ok {
+				hasN, hasX, _ := wildcardConsts(args[0])
+				if hasN && hasX {
+					return true
 				}
+			}
+		}
+		return false
+	}
+	role := map[ssa.Value]string{}
+	var first *ssa.BinOp
+	nW, nG := 0, 0
+	for _, g := range withAnons(fn) {
+		allInstrs(g, func(in ssa.Instruction) {
+			bo, ok := in.(*ssa.BinOp)
+			if !ok || (bo.Op != token.EQL && bo.Op != token.NEQ) {
 				return
 			}
-			if k, ok := constInt(w); ok && k == gapv {
+			for _, pair := range [][2]ssa.Value{{bo.X, bo.Y}, {bo.Y, bo.X}} {
+				other, w := stripConv(pair[0]), stripConv(pair[1])
 				if _, isConst := other.(*ssa.Const); isConst {
 					continue
 				}
-				nG++
-				if guardedByBool(bo.Block(), igg, true) {
-					L.OK("ignore-test", r.label, "residue == GAP", c.P.Pos(bo.Pos()), "executes only on the true branch of ignoreGaps")
-				} else {
-					L.Bad("ignore-test", r.label, "residue == GAP", c.P.Pos(bo.Pos()), "the gap test is not controlled by ignoreGaps")
+				switch {
+				case isLowerWild(w) && !isLowerWild(other):
+					role[bo] = "Wl"
+					nW++
+				case isUpperWild(w) && !isUpperWild(other):
+					role[bo] = "Wu"
+					nW++
+				default:
+					if k, ok := constInt(w); ok && k == gapv {
+						role[bo] = "G"
+						nG++
+					} else {
+						continue
+					}
+				}
+				if first == nil && g == fn {
+					first = bo
 				}
 				return
 			}
-		}
-	})
+		})
+	}
 	if nW < 2 {
 		L.Bad("ignore-test", r.label, "both cases of the wildcard are tested", c.P.Pos(fn.Pos()), fmt.Sprintf("%d comparison(s) with the wildcard found, want the upper- and the lower-case one", nW))
 	}
 	if nG < 1 {
 		L.Bad("ignore-test", r.label, "gap test present", c.P.Pos(fn.Pos()), "no comparison of a residue with GAP under ignoreGaps")
 	}
+	if nW < 2 || nG < 1 || first == nil {
+		return
+	}
+	lp := innermostLoopOf(naturalLoops(fn), first.Block())
+	if lp == nil {
+		L.Unknown("ignore-test", r.label, "residue loop", c.P.Pos(first.Pos()), "the residue comparisons are not inside a loop")
+		return
+	}
+	name := func(v ssa.Value) string {
+		switch {
+		case v == ssa.Value(igg):
+			return "IG"
+		case v == ssa.Value(ign):
+			return "IN"
+		}
+		if rr, ok := role[v]; ok {
+			bo := v.(*ssa.BinOp)
+			if bo.Op == token.NEQ {
+				return "!" + rr
+			}
+			return rr
+		}
+		return ""
+	}
+	ap := newAtomPaths(func(v ssa.Value) bool { return name(v) != "" }, lp.Head)
+	ap.name = name
+	// a `!=` comparison is the negated atom: normalise "!G=T" to "G=F"
+	norm := func(alts map[string]bool) map[string]bool {
+		out := map[string]bool{}
+		for a := range alts {
+			if a == "" {
+				out[a] = true
+				continue
+			}
+			var parts []string
+			for _, p := range strings.Split(a, ";") {
+				if strings.HasPrefix(p, "!") {
+					n, t := p[1:len(p)-2], p[len(p)-1]
+					if t == 'T' {
+						p = n + "=F"
+					} else {
+						p = n + "=T"
+					}
+				}
+				parts = append(parts, p)
+			}
+			sort.Strings(parts)
+			a2 := strings.Join(parts, ";")
+			if !contradictory(a2) {
+				out[a2] = true
+			}
+		}
+		return out
+	}
+	type sig struct {
+		ig, in bool
+		which  string
+	}
+	var sigmas []sig
+	for _, ig := range []bool{false, true} {
+		for _, in := range []bool{false, true} {
+			for _, w := range []string{"", "G", "Wu", "Wl"} {
+				sigmas = append(sigmas, sig{ig, in, w})
+			}
+		}
+	}
+	want := func(s sig) bool {
+		return !((s.ig && s.which == "G") || (s.in && (s.which == "Wu" || s.which == "Wl")))
+	}
+	found := false
+	best, bestMiss := "", 99
+	for b := range lp.Blocks {
+		alts := norm(ap.at(b))
+		miss := 0
+		example := ""
+		for _, s := range sigmas {
+			sigma := map[string]bool{"IG": s.ig, "IN": s.in, "G": s.which == "G", "Wu": s.which == "Wu", "Wl": s.which == "Wl"}
+			if reachableUnder(alts, sigma) != want(s) {
+				miss++
+				if example == "" {
+					example = fmt.Sprintf("ignoreGaps=%v ignoreNs=%v residue=%s: counted=%v, want %v", s.ig, s.in, map[string]string{"": "other", "G": "GAP", "Wu": "wildcard", "Wl": "lower-case wildcard"}[s.which], !want(s), want(s))
+				}
+			}
+		}
+		if miss == 0 {
+			found = true
+			break
+		}
+		if miss < bestMiss {
+			best, bestMiss = example, miss
+		}
+	}
+	L.Check(found, "ignore-test", r.label, "a residue is counted exactly when it is not ignored", c.P.Pos(first.Pos()),
+		"some block of the residue loop is reached exactly when not((ignoreGaps and residue == GAP) or (ignoreNs and residue is the wildcard in either case)), for all 16 combinations",
+		"no block of the residue loop is reached exactly when the residue is not ignored; closest block: "+best)
 }
 
 func (c *Ctx) checkCutoff(r *fnRef) {
